@@ -162,7 +162,20 @@ func runC10(c *Ctx) {
 			continue
 		}
 		v := elemT.Arg(1)
-		bd, ok := ana.Match("phi(bin<|>($v, 2147483648), $v)", v)
+		hardPats := []string{"bin<>>(len(load(iaddr(" + matches + ", 2))), 0)", "bin<!=>(len(load(iaddr(" + matches + ", 2))), 0)", "bin<!=>(load(iaddr(" + matches + ", 2)), \"\")"}
+		softPats := []string{"bin<<=>(len(load(iaddr(" + matches + ", 2))), 0)", "bin<==>(len(load(iaddr(" + matches + ", 2))), 0)", "bin<==>(load(iaddr(" + matches + ", 2)), \"\")", "bin<<=>(len(" + matches + "), 2)"}
+		// v + 2^31 equals v | 2^31 for v < 2^31, which the 31-bit parse (C10.base.bitsize31) guarantees
+		bd, ok := ana.Match("phi(alt(bin<|>($v, 2147483648), bin<+>($v, 2147483648)), $v)", v)
+		if !ok {
+			// one append per branch instead of one append of a merged value
+			if hb, isHard := ana.Match("alt(bin<|>($v, 2147483648), bin<+>($v, 2147483648))", v); isHard {
+				bd, ok = hb, true
+				r.Check(mustPass(fn, ci.Block(), plainEdges(edgesMatching(b, hardPats...))), "C10.exits.hardened-iff-marker", c.ipos(ci), "v|1<<31 is appended only when capture group 2 is non-empty")
+			} else if _, isParse := ana.Match("ext#0(call<*>(load(iaddr("+matches+", 1))))", v); isParse {
+				bd, ok = ana.Binds{"$v": v}, true
+				r.Check(mustPass(fn, ci.Block(), plainEdges(edgesMatching(b, softPats...))), "C10.exits.unhardened-iff-no-marker", c.ipos(ci), "plain v is appended only when capture group 2 is empty or absent")
+			}
+		}
 		if !ok {
 			r.Viol("C10.exits.hardened-value", c.ipos(ci), "appended value is not v or v|1<<31: %s", short(v.String(), 300))
 			continue
@@ -182,8 +195,8 @@ func runC10(c *Ctx) {
 		r.Check(mustPass(fn, blk, g3), "C10.exits.gate-parse-error", c.ipos(ci), "append only after the numeric parse returned no error")
 		// hardened variant selected iff group 2 non-empty
 		if phi, isPhi := v.V.(*ssa.Phi); isPhi {
-			hardEdges := plainEdges(edgesMatching(b, "bin<>>(len(load(iaddr("+matches+", 2))), 0)", "bin<!=>(len(load(iaddr("+matches+", 2))), 0)", "bin<!=>(load(iaddr("+matches+", 2)), \"\")"))
-			softEdges := plainEdges(edgesMatching(b, "bin<<=>(len(load(iaddr("+matches+", 2))), 0)", "bin<==>(len(load(iaddr("+matches+", 2))), 0)", "bin<==>(load(iaddr("+matches+", 2)), \"\")", "bin<<=>(len("+matches+"), 2)"))
+			hardEdges := plainEdges(edgesMatching(b, hardPats...))
+			softEdges := plainEdges(edgesMatching(b, softPats...))
 			for i, ev := range phi.Edges {
 				pred := phi.Block().Preds[i]
 				edge := ana.Edge{From: pred, To: phi.Block()}
